@@ -650,7 +650,7 @@ def r7(ctx):
 
 DS9_UNSUPPORTED_FRAMES = ['physical', 'linear', 'amplifier', 'detector', 'tile', 'wcs', 'wcs0'] + \
     [f'wcs{c}' for c in 'abcdefghijklmnopqrstuvwxyz']
-DS9_UNSUPPORTED_SHAPES = ['vector', 'ruler', 'compass', 'projection', 'panda', 'epanda', 'bpanda']
+DS9_UNSUPPORTED_SHAPES = ['vector', 'ruler', 'compass', 'projection', 'segment', 'panda', 'epanda', 'bpanda']
 
 
 def _doc_cases():
@@ -695,6 +695,11 @@ def _doc_cases():
         ('a composite ends with its last member, whatever that member is',
          'image\n# composite(1,2,0) || composite=1 color=red\ncircle(1,2,3) ||\npanda(1,2,0,360,4,1,2,3)\ncircle(7,8,9)',
          [('image', 'pixel', 'circle', '1,2,3', {'color': 'red', 'include': 1}), ('image', 'pixel', 'circle', '7,8,9', I1)]),
+        ('shapes DS9 writes with a leading "#" (vector, ruler, compass, projection, segment) are unsupported shapes, not comments',
+         'image\n# vector(1,2,3,4) vector=1; circle(5,6,7)\n# composite(1,2,0) || composite=1 color=red\ncircle(1,2,3) ||\n'
+         '# ruler(1,2,3,4) ruler=image\ncircle(7,8,9)\n# just a comment; circle(0,0,1)',
+         [('image', 'pixel', 'circle', '5,6,7', I1), ('image', 'pixel', 'circle', '1,2,3', {'color': 'red', 'include': 1}),
+          ('image', 'pixel', 'circle', '7,8,9', I1)]),
         ('"||" inside a text is text',
          'image\n# composite(1,2,0) || composite=1 color=red\ncircle(1,2,3) ||\ncircle(4,5,6) # text={a||b}\ncircle(7,8,9)',
          [('image', 'pixel', 'circle', '1,2,3', {'color': 'red', 'include': 1}),
@@ -775,6 +780,9 @@ G_LINES = [
     ('circle(1,1,1) ||', 'shape', (1, 'circle', '1,1,1', {}, True)),
     ('panda(1,2,0,360,4,1,2,3) ||', 'unsupported', True),
     ('# text(1,2) text={Hi}', 'shape', (1, 'text', '1,2', {'text': 'Hi'}, False)),
+    # DS9 writes vector / ruler / compass / projection / segment with a leading "#": an unsupported shape (warning), not a
+    # comment — it ends a composite when it carries no "||", and ";" after it still separates regions
+    ('# vector(1,2,3,4) vector=1', 'unsupported', False),
 ]
 
 
@@ -833,10 +841,8 @@ def r9(ctx):
             # a global line after a semicolon-joined shape is fine; comments are not in the grammar (a comment runs to the
             # end of the line, so joining by ';' would change the meaning)
             for sep in ('\n', ';'):
-                if sep == ';' and any(t.startswith('#') for t, _, _ in seq[1:]):
-                    continue          # "# composite(" / "# text(" start a line
-                if sep == ';' and any(t.startswith('#') for t, _, _ in seq[:1]) and k > 1:
-                    continue
+                # every "#" line of the grammar is a region line ("# composite(", "# text(", "# vector("): ";" separates
+                # them like any other region line
                 doc = sep.join(t for t, _, _ in seq)
                 want = _g_oracle(seq)
                 out = Evaluator(m).run(raw, [Const(doc)], {})
@@ -875,7 +881,7 @@ def r10(ctx):
 RULES = [
     RuleDef('R7', 'shape line -> (parameter string, metadata string) on probe lines', r7, 1),
     RuleDef('R8', 'raw parser on probe documents: frame state/requirement, keyword partition, include, metadata, composite', r8, 40),
-    RuleDef('R9', 'grammar enumeration: all documents of <= 3 lines over a 16-line DS9 grammar against a state-machine oracle', r9, 1, tier='deep'),
+    RuleDef('R9', 'grammar enumeration: all documents of <= 3 lines over a 17-line DS9 grammar against a state-machine oracle', r9, 1, tier='deep'),
     RuleDef('R3', 'coordinate / size / angle lexing constants', r3, 5),
     RuleDef('R3b', 'angle/size lexer probes (one per branch and per number ending)', r3b, 1),
     RuleDef('R4', 'parameter templates per shape (symbolic parse), annulus expansion, frame names', r4, 27),
